@@ -381,6 +381,9 @@ C17_PROBES = [
     dict(feature="p_no_repr_c", expect="reject", diag=r"not repr\(C\)|proc-macro derive panicked", what="zero_copy without repr(C)"),
     dict(feature="p_both_attrs", expect="reject", diag=r"both zero copy and deep copy|proc-macro derive panicked", what="zero_copy and deep_copy together"),
     dict(feature="p_nested_bad", expect="reject", diag=r"ZeroCopy|CopyType|is not satisfied|type mismatch", what="vector of a wrongly declared zero-copy struct"),
+    dict(feature="p_enum_deep_before_tuple", expect="reject", diag=r"ZeroCopy|CopyType|is not satisfied|type mismatch", what="zero-copy enum: deep field in a variant declared before a tuple variant"),
+    dict(feature="p_enum_deep_last", expect="reject", diag=r"ZeroCopy|CopyType|is not satisfied|type mismatch", what="zero-copy enum: deep field in the last variant"),
+    dict(feature="p_enum_deep_struct_variant", expect="reject", diag=r"ZeroCopy|CopyType|is not satisfied|type mismatch", what="zero-copy enum: deep field in a struct variant between other variants"),
     dict(feature="ok_control", expect="accept", diag="", what="control: a valid zero-copy definition compiles and reaches the writer"),
 ]
 PLAN["C17"] = dict(
@@ -391,15 +394,15 @@ PLAN["C17"] = dict(
     thorough=lambda seed: [dict(harnesses=[H("c17::" + n, bound="impostor value symbolic", what="panic before any byte", allow=[r"check_zero_copy"], must_fail_allowed=True, covers="none") for n in C17_RT]
                                 + [H("c17::c17_twin_reach", expect="fail", covers="none", what="twin")]),
                            dict(kind="c17probe", probes=C17_PROBES)],
-    bounds={"definitions": "8 wrong declarations (probes/c17) + a hand-written impostor through 8 raw-memory writers"},
+    bounds={"definitions": "11 wrong declarations (probes/c17: 8 structs, 3 zero-copy enums) + a hand-written impostor through 8 raw-memory writers"},
     outside=["definitions not listed", "the compile-time layer is a compiler verdict observed inside the Kani build (trait-bound error or derive panic), not a solver verdict; the solver decides the run-time layer and any probe that does compile"],
     stubs=["Tripwire: WriteNoStd whose write_all is an assert!(false)"], assumptions=[])
 
 C18_ALL = _fns("c18.rs", r"^\s+(c18_\w+) @")
 PLAN["C18"] = dict(
-    quick=lambda seed: [dict(harnesses=names("c18", C18_ALL[:9] + ["c18_toplevel_u32"], bound="concrete shape, field values symbolic, start residue per instance", what="bytes equal plain serialization; rows pre-order/in-stream/tiling/zero padding/aligned; debug() and to_csv() run", covers="none")
+    quick=lambda seed: [dict(harnesses=names("c18", C18_ALL[:9] + ["c18_vecu128_p0", "c18_zal32_p8", "c18_toplevel_u32"], bound="concrete shape, field values symbolic, start residue per instance", what="bytes equal plain serialization; rows pre-order/in-stream/tiling/zero padding/aligned; debug() and to_csv() run", covers="none")
                              + [twin("c18::c18_twin_reach")], timeout=900)],
     thorough=lambda seed: [dict(harnesses=names("c18", C18_ALL + ["c18_toplevel_u32"], bound="concrete shape, field values symbolic", what="schema rows vs bytes", covers="none") + [twin("c18::c18_twin_reach")], timeout=2400)],
-    bounds={"shapes": "15 concrete shapes incl. zero-sized fields, empty sequences, nested composites, header rows (top level u32)"},
+    bounds={"shapes": "20 concrete shapes incl. 16- and 32-aligned blocks at gaps of 8/16/24/1 bytes, zero-sized fields, empty sequences, nested composites, header rows (top level u32)"},
     outside=["value-dependent shapes explored symbolically (CBMC runs out of memory)", "the rendered text (alloc::fmt::format is stubbed)", "shapes not listed"],
     stubs=["alloc::fmt::format -> String::new()", "Sink"], assumptions=[])
